@@ -392,6 +392,17 @@ def run(ctx):
         if not ok:
             ctx.broke("correspondence:qcp-root", "case %d frame %d (%s, n=%d): rmsd %.7g (oracle %.7g) is not within the budget of the largest root of the model's polynomial: signs P(lo),P(hi),P'(hi),P''(hi),hi = %s [%s]" % (
                 k, f, desc["kind"], desc["n_atoms"], rimpl, rm, " ".join(s), desc.get("_dbg")))
+    # ---- a selection without atoms (an empty top.select(...) result): superpose refuses it, or at least leaves finite coordinates
+    tq_ = md.Trajectory(np.random.RandomState(ctx.seed).rand(3, 6, 3).astype(np.float32), None)
+    for empty_ in ([], np.array([], dtype=int)):
+        cq_ = md.Trajectory(tq_.xyz.copy(), None)
+        ctx.case(None, ("empty-selection", type(empty_).__name__)); ctx.count("superpose calls with an empty selection")
+        try:
+            cq_.superpose(tq_, 0, atom_indices=empty_)
+            if not np.isfinite(cq_.xyz).all():
+                viol("superpose|empty-selection", "superpose(atom_indices=%r) returns and leaves %d of %d coordinates NaN" % (empty_, int((~np.isfinite(cq_.xyz)).sum()), cq_.xyz.size), dict(atom_indices=[]))
+        except (ValueError, IndexError, TypeError):
+            pass
     # ---- model: rotation
     model = ctx.driver.query(rreqs) if ctx.driver_ok and rreqs else [None] * len(rreqs)
     for (k, f, desc, rp, X0, X1, selA, Bsel, size, coord_eps), m in zip(rmeta, model):
